@@ -319,6 +319,8 @@ def _relevant(effects):
     for e in effects:
         if e[0] in ("caught", "loop-bound"):
             continue
+        if e[0] == "store" and len(e) > 2 and isinstance(e[1], str) and re.sub(r"@\d+", "", vtext(e[2])) == re.sub(r"@\d+", "", e[1]):
+            continue  # x.a = x.a
         if e[0] == "call" and re.match(r"(log|logger|logging)\.", e[1]):
             continue
         if e[0] == "aug" and isinstance(e[1], str) and re.fullmatch(r"\w+", e[1]):
